@@ -1,2 +1,27 @@
-From Coq Require Import List ZArith.
-From Gosk Require Import Base.Bytes.
+(** C12 - comments, spacing and line endings never change the output (lexical part, proved).
+    Model/Lex.v transcribes the grammar's layout rule `_` (whitespace, LF/CR, ';' and '#' comments).
+    [layout_absorbed]: ANY string made of whitespace bytes and comments - comment text being
+    arbitrary bytes other than CR/LF, each comment closed by CR or LF (so LF, CRLF and CR line
+    endings alike) - standing in front of the first byte of a token is consumed completely and
+    leaves exactly the rest; hence any two such strings are interchangeable at a gap where the
+    grammar has `_`.  PARTIAL: the statement rules (Label, Opcode, operands, strings) are not
+    modelled, so the full "parse (render ts l1) = parse (render ts l2)" is not proved; the re-layout
+    exploration and the one known finding (layout before a first label) cover that part. *)
+From Coq Require Import List ZArith Bool.
+From Gosk Require Import Model.Lex Lemmas.LexLemmas.
+Import ListNotations.
+Local Open Scope Z_scope.
+
+Theorem C12_layout_absorbed : forall w, layout w -> forall rest fuel,
+  (length (w ++ rest) <= fuel)%nat ->
+  (match rest with [] => True | b :: _ => is_ws b = false /\ is_marker b = false end) ->
+  skip_layout fuel (w ++ rest) = rest.
+Proof. exact layout_absorbed. Qed.
+Print Assumptions C12_layout_absorbed.
+
+Theorem C12_layouts_interchangeable_partial : forall w1 w2 rest f1 f2, layout w1 -> layout w2 ->
+  (length (w1 ++ rest) <= f1)%nat -> (length (w2 ++ rest) <= f2)%nat ->
+  (match rest with [] => True | b :: _ => is_ws b = false /\ is_marker b = false end) ->
+  skip_layout f1 (w1 ++ rest) = skip_layout f2 (w2 ++ rest).
+Proof. exact layouts_interchangeable. Qed.
+Print Assumptions C12_layouts_interchangeable_partial.
